@@ -142,6 +142,10 @@ pub enum Op {
     ConfigObject { text: String },
     /// run a processing pass (L1) / deliver the pending batch (L2)
     Pass,
+    /// the next pass runs with the fail-fast option (L1 only): it may stop at the first
+    /// error, so only `bounded` and confinement are demanded of it; equality with a fresh
+    /// run is demanded again at the pass after it
+    FailFastNext,
     /// advance simulated time (L2 only), milliseconds
     Wait { ms: u64 },
     /// install fault rules active during the next pass only; right after that pass the
